@@ -130,7 +130,7 @@ func init() {
 	register(&Property{
 		ID:    "C12",
 		Level: "other",
-		Explanation: "Decides the assembly half of the claim flow structurally: C12-assemble — ClaimProofHandler looks up ONE L1 info leaf by the leaf_index parameter; the L1 branch (network 0 only) proves deposit_count against that leaf's MainnetExitRoot; the L2 branch (this node's network only) first obtains the local exit root as the leaf of the rollup exit tree at that leaf's RollupExitRoot and proves deposit_count against THAT root; the rollup proof is asked for (network, info.RollupExitRoot); the 200 response carries the proofs obtained and the same leaf; C12-error — an error of any of the five lookups ends the handler before the 200 response. Declined: the two binary searches getFirstL1InfoTreeIndexFor{L1,L2}Bridge — their correctness is monotonicity plus midpoint arithmetic over runtime data, which no structural rule in reach decides; that the proofs verify is C08's orientation argument only.",
+		Explanation: "Decides the assembly half of the claim flow structurally: C12-assemble — ClaimProofHandler looks up ONE L1 info leaf by the leaf_index parameter; the L1 branch (network 0 only) proves deposit_count against that leaf's MainnetExitRoot; the L2 branch (this node's network only) first obtains the local exit root as the leaf of the rollup exit tree at that leaf's RollupExitRoot and proves deposit_count against THAT root; the rollup proof is asked for (network, info.RollupExitRoot); the 200 response carries the proofs obtained and the same leaf; C12-error — an error of any of the five lookups ends the handler before the 200 response. Declined: the two binary searches getFirstL1InfoTreeIndexFor{L1,L2}Bridge — their correctness is monotonicity plus midpoint arithmetic over runtime data, which no structural rule in reach decides; that the proofs verify is C08's orientation argument only. Added after round 7: C12-frontier (shared with C01-step), lookups answer found only with the row they read (C12-tree).",
 		Rules: []Rule{
 			{ID: "C12-cover", Floor: 3, Run: c12Cover, Text: "[DOM] safety of both index searches: every record that can become the answer was compared (root.Index >= depositCount) on the selecting path; root façade pass-through"},
 			{ID: "C12-frontier", Floor: 4, Run: func(c *core.Ctx) { treeAddLeaf(c, "C12-frontier"); treeInitCache(c, "C12-frontier") }, Text: "(shared with C01-step) the frontier the bridge syncer rebuilds after a restart is indexed by level exactly as the walk fills it: the exit roots it then computes are the contract's"},
